@@ -36,6 +36,9 @@ var fixed = []core.Case{
 	// a file cached first and uploaded afterwards keeps its root in the gc index: the run deletes the uploaded chunks (and pins)
 	{ID: "fix-cached-then-uploaded", NT: true, Ops: []string{"pup w/c 0", "pyr w/c", "up w/c 0", "gc 1", "read w/c"}},
 	{ID: "fix-cached-then-uploaded-pinned", NT: true, Ops: []string{"pup y/a 0", "pyr y/a", "up y/a 1", "gc 1", "read y/a", "pins"}},
+	// signature `.after-unpin` on every seed (so far produced only by chance, generated case g23 of seed 1): a pinned upload is unpinned (its root
+	// enters the gc index) and evicted; its chunks come back as cache of another file and are evicted again
+	{ID: "fix-unpinned-upload-evicted-recached", NT: true, Ops: []string{"up q/b+s/c 1", "unpin q/b+s/c", "gc 3", "pup p/a+q/b+r/c 0", "pyr p/a+q/b+r/c", "fetch p/a+q/b+r/c 0 1", "fetch p/a+q/b+r/c 2 1", "gc 1"}},
 	// operations racing with the eviction of the first candidate: they run after the collection entered DelFile for it and before the
 	// deletion callback re-checks the dirty addresses under batchMu — the candidate must be skipped, pins and chunks untouched
 	{ID: "fix-race-pin-candidate", NT: true, Ops: []string{"pup x/AB 0", "pyr x/AB", "fetch x/AB 0 11", "gcr 0 x/AB pin x/AB -", "read x/AB", "pins", "unpin x/AB"}},
